@@ -224,6 +224,9 @@ func allChecks() []CheckSpec {
 					Bounds: "1 interface (IPv4 + IPv6 address, symbolic bytes/flags), 4 network-type lists incl. empty, loopback flag, IP filter, 2 mDNS modes, 3-port range at a symbolic base", MustReach: []string{"done"}},
 				{Fn: "verifC18Cycle", Lemma: "GatherCandidates is refused unless the state is New (and needs a handler), cancels the previous cycle; setGatheringState of a cancelled cycle changes and emits nothing, a live one emits exactly one nil candidate on the edge into Complete; Restart cancels the cycle and returns to New",
 					Bounds: "all gathering states, handler present/absent, cancelled/live context, both target states", MustReach: []string{"refused", "started", "cancelled-cycle", "complete", "done"}},
+				{Fn: "verifC18SrflxBase", Lemma: "the base of server-reflexive candidates through the real gatherCandidatesSrflx: with an interface filter, an IP filter or both, every STUN socket the agent opens is bound on an address the filters accept (never the wildcard address) and the published candidate's related address is such an address; only without filters the wildcard address is used",
+					Bounds: "2 interfaces (one accepted), filters none / interface only / IP only / both, one UDP STUN URL, valid reply", MustReach: []string{"filtered", "unfiltered", "published", "done"},
+					Cfg: func(c *HarnessCfg, tier int) { c.GoPolicy = "queue"; c.GoRunMatch = "gatherCandidatesSrflx$1" }},
 			},
 			Assumptions: append([]string{
 				"transport.Net is a fake (interfaces, ListenUDP outcomes per port); randutil Intn = any value in range; context package executed as real code; taskloop.Run by contract",
@@ -318,9 +321,11 @@ func allChecks() []CheckSpec {
 					Bounds: "2 (quick) / 3 (thorough) rules; per rule: interface absent or any 2-byte name, CIDR absent or any /8, explicit entry present/absent, per-family valid and catch-all flags and mode symbolic; lookup: 10.1.1.1, either family flag, interface '' or 'e0'", MustReach: []string{"no-match", "explicit", "catch-all", "done"}},
 				{Fn: "verifC19EvaluateCatchAll4", Lemma: "same differential lemma for 4 catch-all rules (no explicit entries): specificity and declaration order", Bounds: "4 rules, interface/CIDR/flags/mode symbolic as above", MustReach: []string{"catch-all", "done"}, ThoroughOnly: true},
 				{Fn: "verifC19Appliers", Lemma: "applyHostAddressRewrite, applyHostRewriteForUDPMux, resolveSrflxAddresses, resolveRelayAddresses: replace substitutes (empty list drops the candidate), append adds (empty list changes nothing), no match keeps the original; srflx emits only mapped addresses and replace mode switches STUN gathering off",
-					Bounds: "one rule, 0..2 external addresses, both modes, matching / not matching, three candidate types", MustReach: []string{"host", "srflx", "relay", "done"}},
+					Bounds: "one rule, 0..2 external addresses, both modes, matching / not matching, three candidate types", MustReach: []string{"host", "srflx", "relay", "identity-mapping", "done"}},
 				{Fn: "verifC19Compile", Lemma: "end to end (real newAddressRewriteMapper + findExternalIPs): rules written as External/Local/Networks/Mode apply only to the address, IP family and networks they name — a catch-all to the family of its external addresses, an empty rule to every family its Networks allow and to no other, a Local rule to exactly that address; first explicit match wins, else the first catch-all; the winning rule's mode and addresses are returned",
 					Bounds: "2 host rules, each External in {none, IPv4, IPv6, both} x Local in {none, the IPv4 lookup address, the IPv6 one} x Networks in {all, IPv4 only, IPv6 only} x Mode; lookups for one IPv4 and one IPv6 address without interface (2592 rule sets, concrete text)", MustReach: []string{"matched", "unmatched", "empty-rule", "done"}},
+				{Fn: "verifC19Legacy", Lemma: "legacy NAT1To1IPs lists through the real validateLegacyNAT1To1IPs: rejected iff an entry is malformed or two catch-alls of the same IP family occur, whatever the order",
+					Bounds: "lists of 2..3 entries from a pool of 10 (IPv4/IPv6 catch-alls, external/local pairs, malformed, padded, empty), concrete text", MustReach: []string{"rejected", "accepted", "done"}},
 				{Fn: "verifC19Construct", Lemma: "newAddressRewriteMapper rejects invalid rule sets (bad IP, external with prefix, Local outside CIDR, bad CIDR, peer-reflexive type) and accepts valid ones; catch-alls never cross IP families",
 					Bounds: "all ordered pairs from a pool of 10 concrete rules", MustReach: []string{"valid", "invalid", "done"}},
 			},
